@@ -1,6 +1,16 @@
 /-
-  Proofs/C01AbsVal.lean — property C01, "abstract positions" tier, part (2): the classes `aClass` accept every response a
-  conformant executor can give for the selection set AS SENT (with the automatic `__typename` fields), and dump it back.
+  Proofs/C01AbsVal.lean — property C01, "abstract positions" tier (extended by mixin fragments), part (2): the classes `aClass`
+  accept every response a conformant executor can give for the selection set AS SENT (with the automatic `__typename` fields),
+  and dump it back.
+
+  Structure: CollectFields as a fold of `Exec.addCollected` over the field nodes the executor sees (`sentNodes`: own nodes with
+  the marks applied, nodes of the spread mixin fragments as written; `collect_sent`); the field nodes TAGGED with the class that
+  declares them (`tnodes`; `none` = the class itself); `resp_facts`: what a conformant answer says about each node — selections of
+  the same response key are merged; `class_members`: the fields pydantic collects along the bases (`Pyd.allFields`) are one
+  declaration per response key (`DeclFor`: the declaration of the node that owns the key, or the merge Python / pydantic make of the
+  leaf declarations sharing it; Proofs/C01Fold.lean); `class_rt`: one class, by cases on the declaration — own composite field
+  (variants: `field_rt`), `__typename`, inherited composite field (the mixin tier's `field_rt_mix` with `C01Mix.val_spec`), leaf
+  key; `val_spec`: all executor fuels.  `GH`: the global hypotheses on fragment definitions and pydantic environment.
 -/
 import AriadneModel.Proofs.C01AbsGen
 import AriadneModel.Proofs.C01PlainVal
